@@ -24,4 +24,22 @@ def spbrLift (f : SparseBuilder → Outcome SparseBuilder) (b : SparseBuilderR) 
   let b' ← f b.toModel
   return ⟨⟨b'.univ, b.data.high, b'.low⟩, b'.high, b'.len, b'.next, b'.increment⟩
 
+/-- the memory-mapped views in the Rust layout: `MappedSlice { data, offset }` with `data` = (number of items, the elements
+they occupy), `RawVectorMapper { len, data }`, `IntVectorMapper { len, width, data }` -/
+structure MappedSliceR where
+  data : Nat × List Word
+  offset : Nat
+  deriving DecidableEq, Repr, Inhabited
+
+structure RawMapperR where
+  len : Nat
+  data : MappedSliceR
+  deriving DecidableEq, Repr, Inhabited
+
+structure IntMapperR where
+  len : Nat
+  width : Nat
+  data : RawMapperR
+  deriving DecidableEq, Repr, Inhabited
+
 end Sds
